@@ -233,6 +233,16 @@ def tokens(proto, sp=None):
         for k, v in OPTION_DEFAULTS.items():
             if k not in opts and sp.pick('explicit_default:' + k):
                 opts[k] = v
+    tail_opts = {}
+    if sp.rng is not None and len(opts) >= 2 and not getattr(proto, 'extra_options', None) and sp.pick('split_options'):
+        # the options are spread over TWO blocks: the package names first, the wire-shaping options in a second block after the
+        # MetaData blocks and the first packet (options may appear anywhere between definitions, every block counts)
+        for k in list(opts):
+            if k not in ('JavaPackage', 'GoPackage', 'GoModule'):
+                tail_opts[k] = opts.pop(k)
+        if not opts or not tail_opts:
+            opts.update(tail_opts)
+            tail_opts = {}
     if opts or getattr(proto, 'force_options_block', False):
         t += ['options', '{']
         for k in OPTION_ORDER:
@@ -271,7 +281,7 @@ def tokens(proto, sp=None):
             if getattr(e, '_mark', False):
                 t.append(MARK_END)
         t += ['}']
-    for p in proto.packets:
+    for pi, p in enumerate(proto.packets):
         if getattr(p, '_mark', False):
             t.append(MARK_BEGIN)
         if p.root:
@@ -282,6 +292,12 @@ def tokens(proto, sp=None):
         for f in p.fields:
             t += field_tokens(proto, f, sp)
         t.append('}')
+        if pi == 0 and tail_opts:
+            t += ['options', '{']
+            for k in OPTION_ORDER:
+                if k in tail_opts:
+                    t += [k, '=', tail_opts[k], ';']
+            t += ['}']
     return t
 
 
